@@ -43,6 +43,7 @@ package keys
 //@   assume ML-KEM library wrapper
 //@   pure
 //@   ensures err == nil <==> kp != nil
+//@   ensures err == nil ==> kp.Public != nil
 
 //@ func (x *X25519KeyPair) Generate()
 //@   assume crypto/rand does not fail; curve25519 base multiplication
